@@ -232,6 +232,9 @@ func scenarioShrinks(sc *Scenario) []shrinkCand {
 		if cl.Origin != "" {
 			add("no-origin", func(c *Scenario) bool { c.Clients[ci].Origin = ""; return true })
 		}
+		if cl.AbortHS {
+			add("no-handshake-abort", func(c *Scenario) bool { c.Clients[ci].AbortHS = false; return true })
+		}
 		if cl.StartMs > 0 {
 			add("start-0", func(c *Scenario) bool { c.Clients[ci].StartMs = 0; return true })
 		}
